@@ -114,6 +114,7 @@ pub fn run_plan(plan: &Plan, replay: Option<Vec<u32>>) -> RunResult {
     set_parent_env(plan);
     let k = build_kernel(plan);
     let mut s = Sim::new(k, plan.knobs.sched_seed, replay, plan.knobs.personality, plan.knobs.cost_ns);
+    s.step_cap = plan.knobs.step_cap;
     s.env_reaps_left = plan.knobs.env_reaps;
     s.env_spawns_left = plan.knobs.env_spawns;
     let t0 = s.add_thread();
@@ -132,6 +133,8 @@ pub fn run_plan(plan: &Plan, replay: Option<Vec<u32>>) -> RunResult {
             CTX.with(|c| c.set(1));
             let r = std::panic::catch_unwind(std::panic::AssertUnwindSafe(|| match &plan2.body {
                 Body::Comm(c) => crate::fam_comm::run(&plan2, c),
+                Body::Status(c) => crate::fam_status::run(&plan2, c),
+                Body::Spawn(c) => crate::fam_spawn::run(&plan2, c),
             }));
             match r {
                 Ok(fo) => *out2.lock().unwrap() = Some(fo),
